@@ -110,6 +110,36 @@ def apply(c, root):
     return ln.strip(), new.strip()
 
 
+_UNITS = None
+
+
+def props_for(c):
+    """the checks whose evidence lists the function enclosing the mutated line (all checks if none does)"""
+    global _UNITS
+    if _UNITS is None:
+        import glob
+        _UNITS = {}
+        for e in glob.glob(os.path.join(VERIF, 'evidence', 'C*.json')):
+            d = json.load(open(e))
+            for u in d.get('coverage', {}).get('units_analysed', []):
+                _UNITS.setdefault(str(u).split('.')[-1], set()).add(d['property_id'])
+    f, line = c[0], c[1]
+    tree = ast.parse(open(os.path.join(SRC, f)).read())
+    best = None
+    for n in ast.walk(tree):
+        if isinstance(n, (ast.FunctionDef, ast.ClassDef)) and n.lineno <= line <= n.end_lineno:
+            if best is None or n.lineno >= best.lineno:
+                best = n
+    names = []
+    for n in ast.walk(tree):
+        if isinstance(n, (ast.FunctionDef, ast.ClassDef)) and n.lineno <= line <= n.end_lineno:
+            names.append(n.name)
+    sel = set()
+    for nm in names:
+        sel |= _UNITS.get(nm, set())
+    return sorted(sel) or PROPS
+
+
 def run(c, jobs):
     tmp = tempfile.mkdtemp(prefix='pv_mut_')
     try:
@@ -120,7 +150,7 @@ def run(c, jobs):
             return None
         env = dict(os.environ, PV_REPO=tmp, PV_EVIDENCE_DIR=os.path.join(tmp, 'ev'), PV_JOBS=str(jobs))
         res = {}
-        for p in PROPS:
+        for p in props_for(c):
             r = subprocess.run([os.path.join(VERIF, 'check'), p, '--tier', 'quick'], cwd=VERIF, env=env, capture_output=True, text=True, timeout=1800)
             res[p] = r.returncode
         return dict(file=c[0], line=c[1], op=c[2], before=ch[0], after=ch[1], result=res,
